@@ -525,12 +525,42 @@ def check_keycover(cl, mod, cls, func):
         if len(x) > 2 and tuple(x[2]) not in key_cfg and tuple(x[2])[0] not in closure:
             continue
         exempt_cfg[tuple(x[0])] = x[1]
+    inj = set(cl.get("injective_wrappers", [])) | {"str", "tuple", "list", "dict", "sorted", "bool", "int", "float", "stable_key", "repr"}
+    rep = cl.get("represented_by", {})
+
+    def carries(e, var, seen):
+        """does expression e carry the value of `var` without losing information (identity, containers, injective wrappers)?"""
+        if isinstance(e, ast.Name):
+            if e.id == var:
+                return True
+            if e.id in seen:
+                return False
+            return any(carries(d, var, seen | {e.id}) for d in defs.get(e.id, []))
+        if isinstance(e, (ast.Tuple, ast.List, ast.Set)):
+            return any(carries(x, var, seen) for x in e.elts)
+        if isinstance(e, ast.Dict):
+            return any(carries(x, var, seen) for x in e.values if x is not None)
+        if isinstance(e, ast.Call) and isinstance(e.func, ast.Name) and e.func.id in inj:
+            return any(carries(a, var, seen) for a in e.args)
+        if isinstance(e, ast.Call) and isinstance(e.func, ast.Attribute) and e.func.attr in ("keys", "items", "copy") and not e.args:
+            return carries(e.func.value, var, seen)
+        if isinstance(e, ast.IfExp):
+            return carries(e.body, var, seen) or carries(e.orelse, var, seen)
+        if isinstance(e, ast.BoolOp):
+            return any(carries(x, var, seen) for x in e.values)
+        return False
+
     for var, why in cl.get("inputs", []):
         nm = "%s/key-determines:%s" % (cl["name"], var)
+        kv = rep.get(var, var)
         if var not in region_names:
             out.append(result(nm, "error", "anchor lost: declared input %s is not read by the fresh computation any more" % var))
+        elif var in closure and carries(ast.Name(id=key_var, ctx=ast.Load()), kv, set()):
+            out.append(result(nm, "proved", where="%s is carried into %s through containers / injective wrappers%s" % (
+                kv, key_var, "" if kv == var else " (trusted to represent %s)" % var)))
         elif var in closure:
-            out.append(result(nm, "proved", where="%s feeds %s" % (var, key_var)))
+            out.append(result(nm, "failed", "`%s` (%s) reaches `%s` only through a lossy operation (slice, arithmetic, method call): "
+                                            "different values of %s can produce the same cache key" % (kv, why, key_var, var), "key-determines"))
         else:
             out.append(result(nm, "failed", "the fresh computation reads `%s` (%s) but `%s` is not built from it: two calls that differ "
                                             "only in %s get the same cache key" % (var, why, key_var, var), "key-determines"))
